@@ -137,6 +137,16 @@ Corruptions ==
               \cup (IF "distance_function" \in DOMAIN CompAt(s)
                       THEN {Desc("set_value", s[2], "distance_function", "\"chebyshev\"", "reject")} ELSE {})
               : s \in Slots}
+  \* valid rewrites of the observation function: the same area seen through from_visibility with a nested visibility
+  \* function, with and without parameters (nested parameters must reach the function: "threshold" / "absolute_counts"
+  \* are accepted by raytracing only), and with a nested parameter nobody accepts (ignored) or an unknown nested name
+  \cup {Desc("wrap_visibility", <<"observation_function">>, "visibility_function", v, "accept") :
+          v \in {"{\"name\":\"raytracing\"}", "{\"name\":\"raytracing\",\"absolute_counts\":false,\"threshold\":0.8}",
+                 "{\"name\":\"raytracing\",\"absolute_counts\":true,\"threshold\":3}",
+                 "{\"name\":\"partially_occluded\"}", "{\"name\":\"fully_transparent\",\"threshold\":3}",
+                 "{\"name\":\"stochastic_raytracing\"}"}}
+  \cup {Desc("wrap_visibility", <<"observation_function">>, "visibility_function", "{\"name\":\"no_such_visibility\"}", "reject"),
+        Desc("wrap_visibility", <<"observation_function">>, "visibility_function", "{\"threshold\":3}", "reject")}
   \* missing top-level keys
   \cup {Desc("remove_top", <<>>, k, "", "reject") : k \in TopKeys}
   \cup (IF "action_space" \in DOMAIN Cfg THEN {Desc("remove_top", <<>>, "action_space", "", "accept")} ELSE {})
